@@ -21,3 +21,10 @@ def run(ctx):
     from .restate import run_restated
     run_restated(ctx, [("C08", {"C08-a": "U = det L with L[a,b] = Σ x s s", "C08-b": "result.u is that determinant"}),
                        ("C09", {"C09-a": "u vectors u_l = Σ_e x_e s[e,l] p_e", "C09-b": "v = Σ x(m²+p²) − uᵀL⁻¹u"})])
+
+    # the formulas above are written in the scalar type's own operations; for the f64 instantiation those are decided by C20-a — restated
+    # here for exactly the operations this code calls: a `powf` / `sqrt` / `cos` of `impl MomTropFloat for f64` that is not std's breaks
+    # this property with every anchored line untouched
+    from .restate import restate_f64_primitives
+    from .c06 import find_sector
+    restate_f64_primitives(ctx, [lambda: find_sector(ctx, ctx.roles)], "the jacobian assembly and the sector routine", shallow=[lambda: ctx.roles.sample()])
